@@ -329,7 +329,15 @@ Fixpoint drop (n : nat) (l : list N) : list N :=
 (* ParseTrimmedInput / ParseArray / ParseObject.  [depth] = containers currently open.
    The handler calls of JsonParser (OpenArray/AddValue/...) are folded into direct tree
    construction; duplicate keys replace (STLReplaceAndDelete). *)
-Fixpoint parse_value (fuel : nat) (depth : N) (l : list N) {struct fuel} : pres jv :=
+(* The lexer is written once, over the way an object frame stores a member: [put depth key value
+   members].  JsonParser stores through STLReplaceAndDelete in a std::map at every depth (put_std);
+   JsonPatchParser handles the members of the objects directly inside the top-level array itself,
+   in document order, duplicates included (put_patch, depth 2), and hands everything deeper to a
+   JsonParser. *)
+Section Lexer.
+Variable put : N -> list N -> jv -> list (list N * jv) -> list (list N * jv).
+
+Fixpoint parse_value_g (fuel : nat) (depth : N) (l : list N) {struct fuel} : pres jv :=
   match fuel with O => PFuel | S f =>
   match l with
   | [] => PErr 11
@@ -345,24 +353,24 @@ Fixpoint parse_value (fuel : nat) (depth : N) (l : list N) {struct fuel} : pres 
       let l1 := trim r in
       match l1 with
       | [] => PErr 4
-      | c1 :: r1 => if c1 =? 93 then POk (JArr []) r1 else parse_elems f (depth + 1) l1 []
+      | c1 :: r1 => if c1 =? 93 then POk (JArr []) r1 else parse_elems_g f (depth + 1) l1 []
       end
     else if c =? 123 then
       if MAX_DEPTH <=? depth then PErr 12 else
       let l1 := trim r in
       match l1 with
       | [] => PErr 6
-      | c1 :: r1 => if c1 =? 125 then POk (JObj []) r1 else parse_members f (depth + 1) l1 []
+      | c1 :: r1 => if c1 =? 125 then POk (JObj []) r1 else parse_members_g f (depth + 1) l1 []
       end
     else PErr 11
   end end
-with parse_elems (fuel : nat) (depth : N) (l : list N) (acc : list jv) {struct fuel} : pres jv :=
+with parse_elems_g (fuel : nat) (depth : N) (l : list N) (acc : list jv) {struct fuel} : pres jv :=
   match fuel with O => PFuel | S f =>
   if MAX_DEPTH <? depth then PDeep else
   match trim l with
   | [] => PErr 4
   | l1 =>
-    match parse_value f depth l1 with
+    match parse_value_g f depth l1 with
     | PFuel => PFuel
     | PDeep => PDeep
     | PErr e => PErr e
@@ -370,12 +378,12 @@ with parse_elems (fuel : nat) (depth : N) (l : list N) (acc : list jv) {struct f
       match trim r1 with
       | [] => PErr 4
       | c2 :: r2 => if c2 =? 93 then POk (JArr (lrev (v :: acc))) r2
-                    else if c2 =? 44 then parse_elems f depth r2 (v :: acc)
+                    else if c2 =? 44 then parse_elems_g f depth r2 (v :: acc)
                     else PErr 5
       end
     end
   end end
-with parse_members (fuel : nat) (depth : N) (l : list N) (acc : list (list N * jv)) {struct fuel} : pres jv :=
+with parse_members_g (fuel : nat) (depth : N) (l : list N) (acc : list (list N * jv)) {struct fuel} : pres jv :=
   match fuel with O => PFuel | S f =>
   if MAX_DEPTH <? depth then PDeep else
   match trim l with
@@ -394,15 +402,15 @@ with parse_members (fuel : nat) (depth : N) (l : list N) (acc : list (list N * j
         match trim r2 with
         | [] => PErr 6
         | l3 =>
-          match parse_value f depth l3 with
+          match parse_value_g f depth l3 with
           | PFuel => PFuel
           | PDeep => PDeep
           | PErr e => PErr e
           | POk v r4 =>
             match trim r4 with
             | [] => PErr 6
-            | c5 :: r5 => if c5 =? 125 then POk (JObj (obj_put key v acc)) r5
-                          else if c5 =? 44 then parse_members f depth r5 (obj_put key v acc)
+            | c5 :: r5 => if c5 =? 125 then POk (JObj (put depth key v acc)) r5
+                          else if c5 =? 44 then parse_members_g f depth r5 (put depth key v acc)
                           else PErr 10
             end
           end
@@ -414,18 +422,30 @@ with parse_members (fuel : nat) (depth : N) (l : list N) (acc : list (list N * j
 Definition parse_fuel (l : list N) : nat := 2 * length l + 2.
 
 (* ParseRaw + JsonParser::Parse *)
-Definition parse_text_fuel (fuel : nat) (text : list N) : pres jv :=
+Definition parse_text_fuel_g (fuel : nat) (text : list N) : pres jv :=
   let l := trim (cstr text) in
   match l with
   | [] => PErr 1
-  | _ => match parse_value fuel 0 l with
+  | _ => match parse_value_g fuel 0 l with
          | PFuel => PFuel
          | PDeep => PDeep
          | PErr e => PErr e
          | POk v rest => match trim rest with [] => POk v [] | _ => PErr 0 end
          end
   end.
-Definition parse_text (text : list N) : pres jv := parse_text_fuel (parse_fuel (cstr text)) text.
+Definition parse_text_g (text : list N) : pres jv := parse_text_fuel_g (parse_fuel (cstr text)) text.
+
+End Lexer.
+
+Definition put_std (depth : N) := obj_put.
+Definition put_patch (depth : N) (k : list N) (v : jv) (m : list (list N * jv)) : list (list N * jv) :=
+  if depth =? 2 then m ++ [(k, v)] else obj_put k v m.
+
+Definition parse_value := parse_value_g put_std.
+Definition parse_elems := parse_elems_g put_std.
+Definition parse_members := parse_members_g put_std.
+Definition parse_text_fuel := parse_text_fuel_g put_std.
+Definition parse_text := parse_text_g put_std.
 
 (* A JsonParser object used for a sequence of texts: Begin() resets all of its state, so every
    result depends on its own text only (that the C++ object really is stateless between calls is
@@ -695,3 +715,104 @@ Fixpoint set_apply (ops : list pop) (d : doc) : option doc :=
 (* JsonData::Apply: clone, apply, commit or discard (no schema) *)
 Definition data_apply (ops : list pop) (d : doc) : bool * doc :=
   match set_apply ops d with Some d' => (true, d') | None => (false, d) end.
+
+(* ------------------------------------------------------------------ JsonPatchParser.cpp *)
+(* The handler is driven by the lexer's events; what it sees is (i) the top-level value, (ii) for
+   every element of the top-level array whether it is an object, (iii) for an object element its
+   members in document order, duplicates included (parse with put_patch), each value being a
+   string / other scalar / container built by the embedded JsonParser. *)
+Definition K_OP : list N := [111; 112].
+Definition K_PATH : list N := [112; 97; 116; 104].
+Definition K_FROM : list N := [102; 114; 111; 109].
+Definition K_VALUE : list N := [118; 97; 108; 117; 101].
+Definition S_ADD : list N := [97; 100; 100].
+Definition S_REMOVE : list N := [114; 101; 109; 111; 118; 101].
+Definition S_REPLACE : list N := [114; 101; 112; 108; 97; 99; 101].
+Definition S_MOVE : list N := [109; 111; 118; 101].
+Definition S_COPY : list N := [99; 111; 112; 121].
+Definition S_TEST : list N := [116; 101; 115; 116].
+
+(* m_op, m_path, m_from, m_value; reset by OpenObject in state PATCH_LIST *)
+Record pstate := { ps_op : list N; ps_path : option (list N); ps_from : option (list N); ps_value : option jv }.
+Definition ps_init : pstate := {| ps_op := []; ps_path := None; ps_from := None; ps_value := None |}.
+
+(* one member of a patch object: String() -> HandlePatchString; Number/Bool/Null keep only "value";
+   OpenArray/OpenObject switch to state VALUE and the finished container is claimed only for "value" *)
+Definition member_step (st : pstate) (kv : list N * jv) : pstate :=
+  let (k, v) := kv in
+  match v with
+  | JStr s =>
+      if leqb k K_OP then {| ps_op := s; ps_path := ps_path st; ps_from := ps_from st; ps_value := ps_value st |}
+      else if leqb k K_FROM then {| ps_op := ps_op st; ps_path := ps_path st; ps_from := Some s; ps_value := ps_value st |}
+      else if leqb k K_PATH then {| ps_op := ps_op st; ps_path := Some s; ps_from := ps_from st; ps_value := ps_value st |}
+      else if leqb k K_VALUE then {| ps_op := ps_op st; ps_path := ps_path st; ps_from := ps_from st; ps_value := Some v |}
+      else st
+  | _ =>
+      if leqb k K_VALUE then {| ps_op := ps_op st; ps_path := ps_path st; ps_from := ps_from st; ps_value := Some v |}
+      else st
+  end.
+
+(* error codes: 1 kPatchListError | 2 kPatchElementError | 3 kMissingPath | 4 kMissingValue |
+   5 kMissingFrom | 6 "Invalid or missing 'op'" *)
+(* HandlePatch, at CloseObject *)
+Definition handle_patch (st : pstate) : pop + N :=
+  match ps_path st with
+  | None => inr 3
+  | Some path =>
+    if leqb (ps_op st) S_ADD then
+      match ps_value st with None => inr 4 | Some v => inl (PAdd (ptr_parse path) v) end
+    else if leqb (ps_op st) S_REMOVE then inl (PRemove (ptr_parse path))
+    else if leqb (ps_op st) S_REPLACE then
+      match ps_value st with None => inr 4 | Some v => inl (PReplace (ptr_parse path) v) end
+    else if leqb (ps_op st) S_MOVE then
+      match ps_from st with None => inr 5 | Some from => inl (PMove (ptr_parse from) (ptr_parse path)) end
+    else if leqb (ps_op st) S_COPY then
+      match ps_from st with None => inr 5 | Some from => inl (PCopy (ptr_parse from) (ptr_parse path)) end
+    else if leqb (ps_op st) S_TEST then
+      match ps_value st with None => inr 4 | Some v => inl (PTest (ptr_parse path) v) end
+    else inr 6
+  end.
+
+(* an element of the patch array *)
+Definition elem_op (e : jv) : pop + N :=
+  match e with
+  | JObj members => handle_patch (fold_left member_step members ps_init)
+  | _ => inr 2
+  end.
+(* SetError keeps the first error *)
+Fixpoint elems_ops (l : list jv) : list pop + N :=
+  match l with
+  | [] => inl []
+  | e :: r => match elem_op e with
+              | inr c => inr c
+              | inl o => match elems_ops r with inl os => inl (o :: os) | inr c => inr c end
+              end
+  end.
+
+Inductive ppres :=
+| PPOk (ops : list pop)      (* Parse returned true: the patch set holds these operations *)
+| PPBad (code : N)           (* the text is JSON but not a patch document *)
+| PPLex (e : N)              (* the text is not JSON *)
+| PPHaz.                     (* lexer hazard; unreachable *)
+
+Definition patch_of_tree (v : jv) : ppres :=
+  match v with
+  | JArr elems => match elems_ops elems with inl ops => PPOk ops | inr c => PPBad c end
+  | _ => PPBad 1
+  end.
+
+(* JsonPatchParser::Parse *)
+Definition patch_parse_text (text : list N) : ppres :=
+  match parse_text_g put_patch text with
+  | POk v _ => patch_of_tree v
+  | PErr e => PPLex e
+  | _ => PPHaz
+  end.
+
+(* the caller's pattern (HTTP handler, tests): parse the patch text; only a successfully parsed
+   set is handed to JsonData::Apply *)
+Definition patch_apply_text (text : list N) (d : doc) : bool * doc :=
+  match patch_parse_text text with
+  | PPOk ops => data_apply ops d
+  | _ => (false, d)
+  end.
